@@ -6,7 +6,7 @@ RR = "black_it/schedulers/round_robin.py"
 SB = "black_it/schedulers/base.py"
 
 klass("BaseSampler", fields={"batch_size": "pos", "max_deduplication_passes": "nat"})
-klass("BaseScheduler", fields={"_samplers": "seq[opaque:BaseSampler]"},
+klass("BaseScheduler", fields={"_samplers": "seq[opaque:BaseSampler]", "_batch_id": "int"},
       invariant=["len(self._samplers) >= 1"])
 klass("RoundRobinScheduler", fields={"_batch_id": "int"}, invariant=["self._batch_id >= 0"])
 
@@ -41,7 +41,7 @@ contract(f"{RR}::RoundRobinScheduler.update",
 contract(f"{C}::Calibrator.__validate_samplers_and_scheduler_constructor_args",
          params={"samplers": "opt[seq[opaque:BaseSampler]]", "scheduler": "opt[opaque:BaseScheduler]"},
          requires=["implies(samplers is not None, len(samplers) >= 1)"],
-         props=["C09"],
+         returns="opaque:BaseScheduler", props=["C09"],
          raises=[{"exc": "ValueError", "when": "(samplers is None) == (scheduler is None)"}],
          ensures=["implies(scheduler is not None, result is scheduler)",
                   "implies(samplers is not None, isinstance(result, RoundRobinScheduler) and result._batch_id == 0 "
